@@ -218,6 +218,34 @@ func (s *Sim) finish(before map[string]string) {
 		s.drain(3000)
 		s.env.shutdown()
 		s.drain(3000)
+		// a deadline propagated to a server (GRPC-Timeout has 1 ms granularity)
+		// may lie up to a millisecond after the caller's: let such timers fire
+		// before handlers still waiting for their context are told that the
+		// run is over
+		time.Sleep(5 * time.Millisecond)
+		s.drain(3000)
+		// ... and a request that was still in transit when the caller's
+		// deadline passed gives its handler the remaining time from arrival:
+		// wait for the deadlines the running handlers actually have
+		for i := 0; i < 4; i++ {
+			var latest time.Time
+			s.mu.Lock()
+			for _, rs := range s.rpcs {
+				if rs.handlerCtx != nil && rs.handlerDone < rs.handlerEntered && rs.handlerCtx.Err() == nil {
+					if dl, ok := rs.handlerCtx.Deadline(); ok && dl.After(latest) {
+						latest = dl
+					}
+				}
+			}
+			s.mu.Unlock()
+			if latest.IsZero() {
+				break
+			}
+			if d := time.Until(latest); d > 0 {
+				time.Sleep(d + time.Microsecond)
+			}
+			s.drain(3000)
+		}
 		close(s.endCh)
 		s.drain(3000)
 		s.releaseContexts()
